@@ -25,7 +25,7 @@ from .c10 import _only_blank_difference
 ID = "C16"
 LEVEL = "exploration"
 RUNS = {"quick": 300, "thorough": 12000}
-WALL_CAP = {"quick": 240, "thorough": 2400}
+WALL_CAP = {"quick": 240, "thorough": 1500}
 EVALS_FROM_STATS = True
 RULE = (
     "case = seeded ordered pattern map (overlapping regexes, named groups, 8-digit date-like captures) + "
